@@ -174,6 +174,25 @@ def _unit_task(task):
                             continue
                         if not (back == s) or back.GetCategory() != c:
                             part.violation("%s:%s:eval(repr(scalar)) != scalar" % (sig0, c), {"repr": repr(s), "back": repr(back)})
+                    if default and len(cats_of.get(qt, [])) > 1:
+                        # depth-2 histories: the same unit requested with EVERY other category of its type
+                        # first (cold cache), then the forms that resolve the default category
+                        worlds.clear_caches(db)
+                        for c2 in cats_of[qt]:
+                            if c2 != dc:
+                                ObtainQuantity(u, c2)
+                                Scalar(1.5, u, c2)
+                                Array([1.5], u, c2)
+                        part.count("warm_families")
+
+                        def chk_warm(s, c=c, u=u):
+                            if s.GetCategory() != c or s.GetUnit() != u:
+                                part.violation("%s:%s:after requests with the other categories:object does not carry the default category" % (sig0, c), {"object": repr(s), "category": s.GetCategory()})
+
+                        _family(part, "%s:%s:after requests with the other categories:Scalar" % (sig0, c), scalar_forms(1.5, u, c, True)[::-1], chk_warm)
+                        _family(part, "%s:%s:after requests with the other categories:Array" % (sig0, c), array_forms("list", [1.5, -2.0], u, c, True)[::-1])
+                        _family(part, "%s:%s:after requests with the other categories:FractionScalar" % (sig0, c), fraction_forms(1.5, u, c, True)[::-1])
+                        worlds.clear_caches(db)
                     for kind in ("list", "tuple", "ndarray"):
                         for vals in ([], [1.5], [1.5, -2.0], [0.0, 1.5, -2.0]) if (default or thorough) else ([1.5, -2.0],):
                             _family(part, "%s:%s:Array[%s,%d]" % (sig0, c, kind, len(vals)), array_forms(kind, vals, u, c, default))
@@ -232,10 +251,10 @@ def run(ctx):
     ctx.level = "exploration"
     ctx.rule = (
         "complete enumeration: every unit of the table (%d) x its default category (%s) x 3 values x 13 Scalar forms, 6 FractionScalar forms, 8 Array and 7 FixedArray forms over list/tuple/ndarray of length 0..3, eval(repr); "
-        "every category (%d) x category-only vs default-value/default-unit forms for the four classes and Scalar(c, unit=u) for every unit; all forms of a family compared pairwise with == and != in both directions. "
+        "for every unit whose type has several categories the default-category forms again (reverse order) after requests of that unit with every other category on a cold cache; every category (%d) x category-only vs default-value/default-unit forms for the four classes and Scalar(c, unit=u) for every unit; all forms of a family compared pairwise with == and != in both directions. "
         "non-trivial = distinct (unit, non-default category) pairs + categories" % (c.get("units", 0), "and every other category of its type" if ctx.thorough else "plus every other category of the type for the first and last unit of each type", c.get("categories", 0))
     )
-    ctx.coverage_extra = {k: c.get(k, 0) for k in ("units", "categories", "comparisons", "units_without_default_category")}
+    ctx.coverage_extra = {k: c.get(k, 0) for k in ("units", "categories", "comparisons", "units_without_default_category", "warm_families")}
     ctx.part.sample({"unit": "m", "category": "length", "scalar_forms": [n for n, _f in scalar_forms(1.5, "m", "length", True)]})
     ctx.part.sample({"array_forms": [n for n, _f in array_forms("list", [1.5], "m", "length", True)], "fixedarray_forms": [n for n, _f in fixed_forms("list", [1.5, 2.0], "m", "length", True)]})
     ctx.assumptions = ["values {1.5, -2.0, 0.0}; one-dimensional containers of length 0..3", "Quantity(c, u) called directly is included as a form (== with the interned quantity is required by C07)"]
